@@ -244,6 +244,90 @@ theorem c19_legacy_str_roundtrip (isFloat : List Char → Bool) (k : String) (v 
   simp only [Option.map_some, c19_legacy_segment_other _ _ hkk.2.2.2,
     c19_legacy_str_verbatim isFloat k v hk]
 
+/-! ### the whole file -/
+
+/-- a well-formed entry of a legacy file: key text, value text, the four paddings -/
+structure Entry where
+  k : List Char
+  v : List Char
+  p1 : List Char
+  p2 : List Char
+  p3 : List Char
+  p4 : List Char
+
+def Entry.WF (e : Entry) : Prop :=
+  AllWs e.p1 ∧ AllWs e.p2 ∧ AllWs e.p3 ∧ AllWs e.p4 ∧ e.k ≠ [] ∧ Stripped e.k ∧ '=' ∉ e.k ∧ Stripped e.v
+
+def Entry.line (e : Entry) : List Char := e.p1 ++ e.k ++ e.p2 ++ '=' :: (e.p3 ++ e.v ++ e.p4)
+
+/-- the value the file assigns to `key`: that of the LAST line with this key -/
+def lastValue (es : List Entry) (key : List Char) : Option (List Char) :=
+  (es.reverse.find? (fun e => e.k == key)).map (fun e => normSegment e.k e.v)
+
+def step (acc : Option (List (List Char × List Char))) (line : List Char) :
+    Option (List (List Char × List Char)) :=
+  match acc, parseLine line with
+  | some d, some (k, v) => some (insertKV d k v)
+  | _, _ => none
+
+theorem rawDict_eq_foldl (lines : List (List Char)) : rawDict lines = lines.foldl step (some []) := rfl
+
+theorem foldl_step_spec (es : List Entry) (hwf : ∀ e ∈ es, e.WF) (d0 : List (List Char × List Char)) :
+    ∃ d, (es.map Entry.line).foldl step (some d0) = some d ∧
+      ∀ key, lookupRaw d key = (lastValue es key).orElse (fun _ => lookupRaw d0 key) := by
+  induction es generalizing d0 with
+  | nil => exact ⟨d0, rfl, fun key => by simp [lastValue]⟩
+  | cons e es ih =>
+    have he : e.WF := hwf e (by simp)
+    obtain ⟨h1, h2, h3, h4, hk0, hk, hkeq, hv⟩ := he
+    have hp : parseLine e.line = some (e.k, normSegment e.k e.v) :=
+      c19_legacy_line e.p1 e.p2 e.p3 e.p4 e.k e.v h1 h2 h3 h4 hk0 hk hkeq hv
+    simp only [List.map_cons, List.foldl_cons]
+    have hs : step (some d0) e.line = some (insertKV d0 e.k (normSegment e.k e.v)) := by
+      simp [step, hp]
+    rw [hs]
+    obtain ⟨d, hd, hl⟩ := ih (fun x hx => hwf x (by simp [hx])) (insertKV d0 e.k (normSegment e.k e.v))
+    refine ⟨d, hd, fun key => ?_⟩
+    rw [hl key]
+    unfold lastValue
+    simp only [List.reverse_cons, List.find?_append]
+    cases hf : es.reverse.find? (fun x => x.k == key) with
+    | some x => simp
+    | none =>
+      simp only [Option.map_none, Option.orElse_none, Option.none_or, List.find?_cons, List.find?_nil]
+      by_cases hkk : e.k = key
+      · subst hkk
+        simp [c19_legacy_later_wins]
+      · have : (e.k == key) = false := by simpa using hkk
+        simp only [this, Option.map_none, Option.orElse_none]
+        exact c19_legacy_other_keys d0 e.k key _ (fun h => hkk h.symm)
+
+/-- **a whole legacy file**: every well-formed file loads (no line is rejected), and each key has the value of
+its last line - whatever the values contain and however the lines are padded -/
+theorem c19_legacy_file (es : List Entry) (hwf : ∀ e ∈ es, e.WF) :
+    ∃ d, rawDict (es.map Entry.line) = some d ∧ ∀ key, lookupRaw d key = lastValue es key := by
+  obtain ⟨d, hd, hl⟩ := foldl_step_spec es hwf []
+  refine ⟨d, by rw [rawDict_eq_foldl]; exact hd, fun key => ?_⟩
+  rw [hl key]
+  cases lastValue es key <;> simp [lookupRaw]
+
+/-- one line without `=` makes the whole load fail (Python: ValueError), wherever it stands -/
+theorem c19_legacy_file_rejects (pre post : List (List Char)) (bad : List Char) (hbad : '=' ∉ strip bad) :
+    rawDict (pre ++ bad :: post) = none := by
+  rw [rawDict_eq_foldl, List.foldl_append, List.foldl_cons]
+  have hb : ∀ acc, step acc bad = none := by
+    intro acc
+    cases acc with
+    | none => simp [step]
+    | some d => simp [step, parseLine, c19_legacy_no_equals _ hbad]
+  rw [hb]
+  have hn : ∀ ls : List (List Char), ls.foldl step none = none := by
+    intro ls
+    induction ls with
+    | nil => rfl
+    | cons l ls ih => simp [List.foldl_cons, step, ih]
+  exact hn post
+
 /-- non-vacuity / the case that motivated the statement: a training-set path containing `=` -/
 example : parseLine "rating training set = /data/k=0.05/ts_user".toList
     = some ("rating training set".toList, "/data/k=0.05/ts_user".toList) := by decide
